@@ -17,6 +17,7 @@ import CookModel.Driver.SerdeEq
 import CookModel.Driver.GroupMore
 import CookModel.Driver.FrontMatter
 import CookModel.Driver.RefCheck
+import CookModel.Driver.RefCheckValidator
 /- Registry of line-protocol handlers. One line per area. -/
 namespace Cook.Driver
 def handlers : List (List String → Option String) := [
@@ -39,6 +40,7 @@ def handlers : List (List String → Option String) := [
   handleSerdeEq,
   handleGroupMore,
   handleFrontMatter,
-  handleRefCheck
+  handleRefCheck,
+  handleRefCheckValidator
 ]
 end Cook.Driver
